@@ -22,6 +22,8 @@ use pumpkin_solver::options::LearningOptions;
 use pumpkin_solver::options::RestartOptions;
 use pumpkin_solver::options::SequenceGeneratorType;
 use pumpkin_solver::options::SolverOptions;
+use pumpkin_solver::proof::Format;
+use pumpkin_solver::proof::ProofLog;
 use pumpkin_solver::results::solution_iterator::IteratedSolution;
 use pumpkin_solver::results::OptimisationResult;
 use pumpkin_solver::results::ProblemSolution;
@@ -56,6 +58,9 @@ pub struct Opts {
     /// "lbd" | "activity"
     pub sorting: String,
     pub seed: u64,
+    /// DRCP proof logging: "" (off) | "scaffold" | "full" | "hints"
+    #[serde(default)]
+    pub proof: String,
 }
 
 impl Default for Opts {
@@ -70,12 +75,17 @@ impl Default for Opts {
             lbd_threshold: 5,
             sorting: "lbd".into(),
             seed: 42,
+            proof: String::new(),
         }
     }
 }
 
 impl Opts {
     pub fn to_options(&self) -> SolverOptions {
+        self.to_options_with(None)
+    }
+
+    pub fn to_options_with(&self, proof_path: Option<&std::path::Path>) -> SolverOptions {
         let mut restart = RestartOptions::default();
         match self.restart.as_str() {
             "default" => {}
@@ -111,7 +121,12 @@ impl Opts {
             restart_options: restart,
             learning_clause_minimisation: self.minimise,
             random_generator: SmallRng::seed_from_u64(self.seed),
-            proof_log: Default::default(),
+            proof_log: match (proof_path, self.proof.as_str()) {
+                (Some(path), "scaffold") => ProofLog::cp(path, Format::Text, false, false).expect("proof file"),
+                (Some(path), "full") => ProofLog::cp(path, Format::Text, true, false).expect("proof file"),
+                (Some(path), "hints") => ProofLog::cp(path, Format::Text, true, true).expect("proof file"),
+                _ => Default::default(),
+            },
             conflict_resolver: if self.resolver == "uip" {
                 ConflictResolver::UIP
             } else {
@@ -449,6 +464,8 @@ struct Run {
     /// number of variables including the dummy (TLA+ index of the last variable)
     nvars: u32,
     poll_cap: u64,
+    /// proof logging needs every variable to have a name ("x<index>")
+    named: bool,
 }
 
 impl Run {
@@ -529,17 +546,46 @@ fn guarded<T>(what: &str, f: impl FnOnce() -> T) -> Option<T> {
 }
 
 fn run_steps(scn: &Scenario) {
+    let proof_path = if scn.opts.proof.is_empty() {
+        None
+    } else {
+        let dir = std::env::var("PVH_PROOF_DIR").unwrap_or_else(|_| "/verif/work/proofs".into());
+        let _ = std::fs::create_dir_all(&dir);
+        Some(std::path::PathBuf::from(dir).join(format!(
+            "p_{}_{}_{}.drcp",
+            std::process::id(),
+            scn.fam,
+            scn.id
+        )))
+    };
     let mut run = Run {
-        solver: Solver::with_options(scn.opts.to_options()),
+        solver: Solver::with_options(scn.opts.to_options_with(proof_path.as_deref())),
         ctx: Ctx::default(),
         nvars: 1,
-        poll_cap: std::env::var("PVH_POLL_CAP").ok().and_then(|s| s.parse().ok()).unwrap_or(60_000),
+        // runs that record every engine event are cut much earlier: a capped run of 60 000 polls
+        // is a trace of > 100 MB (reported as informational `C02x.CappedEarly`, see Trace.tla)
+        poll_cap: std::env::var("PVH_POLL_CAP")
+            .ok()
+            .and_then(|s| s.parse().ok())
+            .unwrap_or(if scn.engine { 6_000 } else { 60_000 }),
+        named: proof_path.is_some(),
     };
+    let mut completed = true;
     for step in scn.steps.iter() {
         let cont = run_step(&mut run, step);
         if !cont {
+            completed = false;
             break;
         }
+    }
+    // the proof files are complete once the solver is gone
+    drop(run);
+    if let Some(path) = proof_path {
+        if completed {
+            crate::proofread::emit_proof_events(&path, &mut |v| ext(v));
+        }
+        let _ = std::fs::remove_file(&path);
+        let _ = std::fs::remove_file(path.with_extension("lits"));
     }
 }
 
@@ -551,10 +597,18 @@ fn run_step(run: &mut Run, step: &Step) -> bool {
             sorted.dedup();
             let contiguous =
                 (sorted[sorted.len() - 1] - sorted[0]) as usize + 1 == sorted.len();
+            let name = format!("x{}", run.nvars + 1);
+            let named = run.named;
             let r = guarded("new_var", || {
                 if contiguous && !*sparse {
-                    run.solver
-                        .new_bounded_integer(sorted[0], sorted[sorted.len() - 1])
+                    if named {
+                        run.solver.new_named_bounded_integer(sorted[0], sorted[sorted.len() - 1], name)
+                    } else {
+                        run.solver
+                            .new_bounded_integer(sorted[0], sorted[sorted.len() - 1])
+                    }
+                } else if named {
+                    run.solver.new_named_sparse_integer(vals.clone(), name)
                 } else {
                     run.solver.new_sparse_integer(vals.clone())
                 }
@@ -604,7 +658,15 @@ fn run_step(run: &mut Run, step: &Step) -> bool {
             true
         }
         Step::NewLit => {
-            let Some(l) = guarded("new_literal", || run.solver.new_literal()) else {
+            let name = format!("x{}", run.nvars + 1);
+            let named = run.named;
+            let Some(l) = guarded("new_literal", || {
+                if named {
+                    run.solver.new_named_literal(name)
+                } else {
+                    run.solver.new_literal()
+                }
+            }) else {
                 return false;
             };
             run.nvars += 1;
